@@ -35,18 +35,21 @@ PARTIAL = ('The token-level clause (significant tokens of the result = header ++
            'hypotheses that are visible in the statements and not discharged for the concrete stack: '
            'C14_tokens_partial / C14_tokens_partial_now assume the reference tokenizer\'s chunking property (a text '
            'ending in a newline lexes independently of what follows; a final newline adds no token: C07\'s chunking '
-           'lemma) and the lexer\'s faithful echo (C06); C14_block_tokens_partial additionally assumes that the '
-           'stripping step acts on significant tokens as the removal of the game-loop definitions. The clause itself is '
-           'checked on every run by the extracted monitor holds_C14. C14_structure_bytes carries C06\'s echo '
-           'statement as an explicit hypothesis.')
+           'lemma) and the lexer\'s token-faithful echo (C06: the echoed text has the source\'s tokens); '
+           'C14_block_tokens_partial additionally assumes that the stripping step acts on significant tokens as the '
+           'removal of the game-loop definitions (unconditionally proved of the concrete stripping: it only removes '
+           'tokens, C14_strip_only_removes). The clause itself is checked on every run by the extracted monitor '
+           'holds_C14. C14_structure_bytes / C14_unstripped_block assume a BYTE-faithful echo, which picotool\'s '
+           'lexer has only for sources whose quoted strings are spelled canonically (C06: other strings are re-spelled '
+           'with the same denotation).')
 CLAIM = dict(
     text=("Theorems (Coq, closed under the global context) about a model of build.py's _evaluate_require / "
           "RequireWalker / _prepend_package_lua, proved for EVERY lexer, parser, walker, name check, file map and load "
           "path (the model is a Section over them) and instantiated with the lexer / parser / path models and the "
           "constants regenerated from build.py: C14_structure (the text handed to the final parse is package preamble "
           "++ one block per table entry ++ require preamble ++ the main program's lines), C14_structure_bytes / "
-          "C14_unstripped_block (the bytes, under C06's echo hypothesis: main unchanged, {use_game_loop=true} packages "
-          "byte for byte), C14_once (table names distinct, exactly the names reachable through require(), each after a "
+          "C14_unstripped_block (the bytes, under a byte-faithful-echo hypothesis: main unchanged, {use_game_loop=true} "
+          "packages byte for byte), C14_once (table names distinct, exactly the names reachable through require(), each after a "
           "requirer, each a located+parsed+stripped file; cycles terminate), C14_errors* (walker exception / refused "
           "name / missing file => the build returns an error and no output), C14_terminates(_now) (1 + number of "
           "require strings is enough fuel; more fuel never changes the result), C14_dfs_exact (the search computes "
